@@ -138,6 +138,25 @@ def module_attr(it, m, attr):
             return BuiltinV("sc.odict", lambda it, *a, **k: dict(*a, **k))
         if attr == "dcp":
             return BuiltinV("sc.dcp", sc_dcp)
+        if attr == "promotetolist":
+            def promotetolist(it, x=None, *a, keepnone=False, **k):
+                # sciris: None -> [] (or [None] with keepnone), a list stays, a tuple / array becomes a list, anything else is wrapped
+                if x is None:
+                    return [None] if keepnone else []
+                if isinstance(x, list):
+                    return x
+                if isinstance(x, tuple):
+                    return list(x)
+                if is_arr(x):
+                    n = concrete_int(it.arr_len(x))
+                    if n is None:
+                        raise Unsupported("sc.promotetolist of an array of symbolic length")
+                    rd = it.arr_reader(x)
+                    return [rd(i) for i in range(n)]
+                return [x]
+
+            it.assumptions_log.add("sc.promotetolist: None -> [], a list stays, anything else is wrapped in a list")
+            return BuiltinV("sc.promotetolist", promotetolist)
         if attr == "isstring":
             return BuiltinV("sc.isstring", lambda it, x: isinstance(x, str))
         raise Unsupported("sciris.%s has no stated semantics" % attr)
@@ -475,6 +494,11 @@ def b_max(it, *args, **kw):
         if not isinstance(seq, list):
             raise Unsupported("max over symbolic sequence")
         args = seq
+        if not args:
+            # max() of an empty sequence: ValueError -- a definite failure on this path
+            if it.definedness and not it.caught_here("ValueError"):
+                it.oblige("defined", "ValueError:max-of-empty", False, None, note="ValueError: max() iterable argument is empty")
+            raise _Raise("ValueError")
     # a one-element array compares (and is later stored) as its element
     args = [a.get(0) if isinstance(a, LArr) and concrete_int(a.n) == 1 else a for a in args]
     res = args[0]
@@ -493,6 +517,11 @@ def b_min(it, *args, **kw):
         if not isinstance(seq, list):
             raise Unsupported("min over symbolic sequence")
         args = seq
+        if not args:
+            # min() of an empty sequence: ValueError -- a definite failure on this path
+            if it.definedness and not it.caught_here("ValueError"):
+                it.oblige("defined", "ValueError:min-of-empty", False, None, note="ValueError: min() iterable argument is empty")
+            raise _Raise("ValueError")
     # a one-element array compares (and is later stored) as its element
     args = [a.get(0) if isinstance(a, LArr) and concrete_int(a.n) == 1 else a for a in args]
     res = args[0]
